@@ -25,6 +25,7 @@ import Rooc.Proofs.RefLemmas
 import Rooc.Proofs.WFOccur
 import Rooc.Proofs.WFCompileOrdered
 import Rooc.Proofs.WFErrKind
+import Rooc.Proofs.WFCollapse
 import Rooc.LinErrText
 import Rooc.Gen.LinConsts
 namespace Rooc.Props.C08
@@ -405,13 +406,43 @@ theorem compile_report_ok {K : Type} [ExactField K] {m : Model (Ext K)} {tol : E
 /-- a `MissingFiniteBounds` error of the whole compiler names, among the source variables, only variables whose
 range AFTER bound inference (`apply_to_domain`'s input, `an.variableBounds`) is not finite. -/
 theorem compile_missing_bounds_blames_unbounded {m : Model α} {tol : α} {maxSteps : Nat} {vs : List String}
+    (hchk : ∃ r, collapseCheckAll m (Compile.scratchState m tol maxSteps) = .ok r)
     (h : Compile.linearize m tol maxSteps = .error (.missingFiniteBounds vs)) :
     WF.sortedStrict vs = true ∧ ∃ an : Analyzer α, ∀ x ∈ vs, x ∈ m.domain.map (·.name) →
       ¬ (Arith.isFinite (varBounds (Compile.toLinBounds an.variableBounds) x).lower = true ∧
          Arith.isFinite (varBounds (Compile.toLinBounds an.variableBounds) x).upper = true) := by
-  rcases compile_error_linearizeWith h with h | ⟨an, hlin⟩
+  -- the error does not come from the up-front collapse check (`hchk`: that check went through)
+  rcases compile_error_linearizeWith h with h | h | ⟨an, hlin⟩
+  · obtain ⟨r, hr⟩ := hchk; rw [hr] at h; cases h
   · cases h
   · refine ⟨(missing_bounds_error_global hlin).1, an, ?_⟩
+    intro x hx hd
+    exact missing_bounds_error_blames_unbounded hlin x hx (by rw [applyToDomain_names]; exact hd)
+
+/-- the same WITHOUT the side condition on the up-front collapse check (rooc e35561f: `check_collapsing_logic_operands`
+runs before bound inference, on the DECLARED boxes, and may itself raise `MissingFiniteBounds` while it lowers a
+collapsed `and`/`or` node): whichever stage raises the error, the payload is strictly sorted and names, among the
+source variables, only variables whose range is not finite IN THE BOX THAT STAGE READS — the declared box
+(`analyze domain [] …`, no constraint applied) for the collapse check, the box after bound inference for the
+lowering. -/
+theorem compile_missing_bounds_blames_unbounded_any_stage {m : Model α} {tol : α} {maxSteps : Nat}
+    {vs : List String} (h : Compile.linearize m tol maxSteps = .error (.missingFiniteBounds vs)) :
+    WF.sortedStrict vs = true ∧
+    ∃ b : BoundsMap α,
+      (b = Compile.toLinBounds (Analyzer.analyze m.domain [] tol maxSteps).variableBounds ∨
+        ∃ an : Analyzer α, b = Compile.toLinBounds an.variableBounds) ∧
+      ∀ x ∈ vs, x ∈ m.domain.map (·.name) →
+        ¬ (Arith.isFinite (varBounds b x).lower = true ∧ Arith.isFinite (varBounds b x).upper = true) := by
+  rcases compile_error_linearizeWith h with hc | hc | ⟨an, hlin⟩
+  · obtain ⟨e, bm, rfl, hbm⟩ := collapse_missing_bounds (s0 := Compile.scratchState m tol maxSteps) rfl rfl hc
+    refine ⟨varsWithoutFiniteBounds_sorted e bm, _, Or.inl rfl, ?_⟩
+    intro x hx hd
+    have := (mem_varsWithoutFiniteBounds.mp hx).2
+    unfold varBounds at this ⊢
+    rw [hbm x hd] at this
+    exact this
+  · cases hc
+  · refine ⟨(missing_bounds_error_global hlin).1, _, Or.inr ⟨an, rfl⟩, ?_⟩
     intro x hx hd
     exact missing_bounds_error_blames_unbounded hlin x hx (by rw [applyToDomain_names]; exact hd)
 
